@@ -17,6 +17,21 @@ class ToolError(Exception):
     pass
 
 
+class CodePanic(ToolError):
+    """The harness process was brought down by a panic raised inside dryoc (/repo/src) that no family of the harness expects:
+    the code under test panicked on an input of the sweep.  A panic is data - checks/run reports it as a violation."""
+    def __init__(self, where, what, cmd):
+        super().__init__("panic inside dryoc at %s: %s" % (where, what))
+        self.where, self.what, self.cmd = where, what, cmd
+
+
+def raise_if_code_panic(out, cmd):
+    """`out` is the output of a harness process that exited abnormally."""
+    m = re.search(r"panicked at (/repo/src/[^:\s]+:\d+)(?::\d+)?:?\s*\n?([^\n]*)", out or "")
+    if m:
+        raise CodePanic(m.group(1), m.group(2).strip()[:300], " ".join(str(c) for c in cmd)[:300])
+
+
 def seed():
     try:
         return int(os.environ.get("VERIF_SEED", "1"))
@@ -251,6 +266,7 @@ def conform(config, args, timeout=3600, env=None, cwd=None):
     binp = build_harness(config)
     rc, out = sh([binp] + [str(a) for a in args], timeout=timeout, env=env, cwd=cwd)
     if rc != 0:
+        raise_if_code_panic(out, [os.path.basename(binp)] + list(args))
         raise ToolError("harness %s exited with %d:\n%s" % (args[0], rc, out[-3000:]))
     return out
 
